@@ -206,7 +206,11 @@ func Matrix() Set {
 	}, Nested: []M{{Name: "In", Fields: []F{{Name: "x", Num: 1, Kind: Fixed32}, {Name: "back", Num: 2, Kind: Message, TypeName: ".vm.Rd"}},
 		Enums: []E{{Name: "Deep", Values: []EV{{"DEEP_A", 0}, {"DEEP_B", 7}, {"DEEP_B2", 7}}, Alias: true}}}}})
 	f := File{Path: "vm/matrix.proto", Package: pkg, GoPackage: GenBase + "vm", Msgs: msgs, Enums: []E{enumEn()}}
-	return Set{Name: "vm", Files: []*descriptorpb.FileDescriptorProto{f.Build()}, Generate: []string{"vm/matrix.proto"}, Param: "features=protoc+fast"}
+	fd := f.Build()
+	// a service whose methods have pairwise different input and output types (dependency-index sub-lists of the file descriptor)
+	fd.Service = []*descriptorpb.ServiceDescriptorProto{svc("MatrixService",
+		[3]string{"Get", ".vm.Rc", ".vm.Rd"}, [3]string{"Put", ".vm.Rd", ".vm.Rm"}, [3]string{"Deep", ".vm.Rd.In", ".vm.Leaf"})}
+	return Set{Name: "vm", Files: []*descriptorpb.FileDescriptorProto{fd}, Generate: []string{"vm/matrix.proto"}, Param: "features=protoc+fast"}
 }
 
 // OneofSint: sint32/sint64 members of a oneof (kept apart: the size template had a brace bug for them)
